@@ -1136,6 +1136,9 @@ impl Vm {
         #[cfg(yarel_verif)]
         self.verif_ev("EndFinally", String::new());
         if self.handling_exception {
+            let exc_object =
+                std::mem::replace(&mut self.active_fiber_mut().pending_exception, Value::None);
+            self.push(exc_object);
             self.unwind_stack()?;
         }
         let return_data = self.active_fiber_mut().take_return_data();
@@ -1613,7 +1616,13 @@ impl Vm {
         self.active_fiber_mut()
             .stack
             .truncate(handler.init_stack_size);
-        self.push(exc_object);
+        if handler.has_catch_block() {
+            // No catch block: the finally block runs at the height it was compiled for and the
+            // exception waits off the stack until EndFinally re-raises it.
+            self.active_fiber_mut().pending_exception = exc_object;
+        } else {
+            self.push(exc_object);
+        }
         self.active_fiber_mut().frames.truncate(handler.frame_count);
         self.handling_exception = handler.has_catch_block();
         if !self.handling_exception {
